@@ -9,7 +9,6 @@ RULE = ("token sequences over a per-format adversarial alphabet ('', '-', '--', 
         "options with and without '=value', grouped shorts, negative numbers, 'null', words, command names/aliases) x 40 small "
         "formats x strict/lenient: exhaustive to length 2 (quick) / 3 (thorough) for all formats and one more for 6 of them, "
         "seeded random to length 6; non-trivial = reaches an error or sets a value; distinct by (format, mode, tokens)")
-THEOREMS = ["strict_error_kinds", "lenient_total", "lenient_extends_strict", "parse_ignores_scratch"]
 TRUSTED = []
 ASSUMPTIONS = ["formats are valid (built through ArgsFormat), option/argument objects are valid (C07)"]
 
